@@ -77,6 +77,9 @@ fn fake_bytes(rng: &mut Rng, kind: &str, why: &str, pad: usize, big: &[PoolStrea
         }
         ("gzip", "method") => vec![0x1f, 0x8b, 7, 0, 0, 0, 0, 0, 0, 3, 0x03, 0x00],
         ("gzip", "fextra-past-eof") => vec![0x1f, 0x8b, 8, 4, 0, 0, 0, 0, 0, 3, 0xff, 0xff],
+        // a file name / comment that is not terminated (it runs to the end of the file if nothing follows)
+        ("gzip", "name-past-eof") => vec![0x1f, 0x8b, 8, 8, 1, 1, 1, 1, 2, 3, b'n', b'a', b'm', b'e'],
+        ("gzip", "comment-past-eof") => vec![0x1f, 0x8b, 8, 0x10, 1, 1, 1, 1, 2, 3, b'c', b'o'],
         ("gzip", _) => vec![0x1f, 0x8b, 8, 0, 0, 0, 0, 0, 0, 3, 0x07],
         ("zip", "signature") => vec![0x50, 0x4b, 0x01, 0x02, 0, 0, 0, 0],
         ("zip", "method") => {
@@ -458,7 +461,7 @@ fn random_segs(rng: &mut Rng) -> Value {
             0..=2 => segs.push(json!({"c":"junk","n":*rng.pick(&[0u64, 1, 2, 3, 4, 5, 17, 300, 5000])})),
             3..=4 => {
                 let why = match k {
-                    "gzip" => *rng.pick(&["method", "fextra-past-eof", "block"]),
+                    "gzip" => *rng.pick(&["method", "fextra-past-eof", "name-past-eof", "comment-past-eof", "block"]),
                     "zip" => *rng.pick(&["signature", "method", "extra-past-eof", "block"]),
                     "idat" => *rng.pick(&["crc", "short", "nolength", "truncated", "zero-chunk", "gap", "zero-chunk", "gap"]),
                     _ => "block",
